@@ -347,7 +347,9 @@ def check_wrapper(res, h, fn, in_syms, nout, oracle, key, tol, sampler, assumpti
     else:
         orc = oracle(in_syms)
         obl = [("out%d" % k, ph[k], orc[k]) for k in range(nout)]
-    obl = [(n, l if isinstance(l, T.Term) else T.lift(l), r if isinstance(r, T.Term) else T.lift(r)) for n, l, r in obl]
+    guards = {o[0]: list(o[3]) for o in obl if len(o) > 3}
+    obl = [(o[0], o[1] if isinstance(o[1], T.Term) else T.lift(o[1]), o[2] if isinstance(o[2], T.Term) else T.lift(o[2])) for o in obl]
+    gfeas = solver.Feasibility(list(assumptions), 2000) if guards else None
     names = in_names or [s.args[0] for s in in_syms]
     okpaths = 0
     for pi, p in enumerate(paths):
@@ -369,25 +371,44 @@ def check_wrapper(res, h, fn, in_syms, nout, oracle, key, tol, sampler, assumpti
         handlers = per_path(p, obl) if per_path else {}
         if handlers is None:
             continue
+        gcache = {}
         for name, lhs, rhs in obl:
             oname = "%s/%s" % (pkey, name)
             hd = handlers.get(name) if handlers else None
             if hd == "skip":
                 continue
+            gd = guards.get(name, [])
+            if gd:
+                # guarded obligation: only where the guard is consistent with the path condition
+                gk = tuple(id(c) for c, _ in gd)
+                if gk not in gcache:
+                    okg = True
+                    pcs = list(p.pc)
+                    for c, pol in gd:
+                        if gfeas(pcs, c, pol) is False:
+                            okg = False
+                            break
+                        pcs.append((c, pol))
+                    gcache[gk] = okg
+                if not gcache[gk]:
+                    continue
             try:
                 l2 = T.substitute(lhs, sub)
                 r2 = T.substitute(rhs, sub)
+                pg = type("P", (), {})()
+                pg.pc = list(p.pc) + list(gd)
+                pg.outs = p.outs
                 if callable(hd):
-                    v = hd(name, l2, r2, p)
+                    v = hd(name, l2, r2, pg)
                 else:
                     rf = T.nf(T.Sub(l2, r2))
-                    v = solver.check_identity(rf, pc=p.pc, assumptions=assumptions, extra_rules=rules, timeout_ms=timeout_ms)
+                    v = solver.check_identity(rf, pc=pg.pc, assumptions=assumptions, extra_rules=rules, timeout_ms=timeout_ms)
             except T.PolyTooBig:
                 v = solver.Verdict("undecided", "normal form too large")
             if v.status == "holds":
                 res.add(oname, v)
                 continue
-            w = find_witness(h, fn, names, nout, p, obl, name, tol, sampler, v.model, fbits)
+            w = find_witness(h, fn, names, nout, p, obl, name, tol, sampler, v.model, fbits, guard=gd)
             if w is not None:
                 v.status = "violated"
                 res.add(oname, v)
@@ -430,7 +451,7 @@ def numeric_errors(obl, names, inp, out, mp):
     return errs, vals
 
 
-def find_witness(h, fn, names, nout, path, obl, oname, tol, sampler, model, fbits=64, ntry=40):
+def find_witness(h, fn, names, nout, path, obl, oname, tol, sampler, model, fbits=64, ntry=40, guard=()):
     """Look for a concrete input where obligation `oname`, evaluated on the NATIVE wrapper output, misses tol.
     Candidates: the solver's model (completed from a sampler point), then sampler points."""
     mp = mpmath()
@@ -448,11 +469,13 @@ def find_witness(h, fn, names, nout, path, obl, oname, tol, sampler, model, fbit
     for inp in cands:
         if len(inp) != len(names) or any((x != x) or math.isinf(x) for x in inp):
             continue
+        if guard and not pc_holds(list(guard), {n: x for n, x in zip(names, inp)}):
+            continue
         try:
             out = h.native(fn, inp, nout, fbits)
         except Exception:
             continue
-        errs, vals = numeric_errors(obl, names, inp, out, mp)
+        errs, vals = numeric_errors([o for o in obl if o[0] == oname], names, inp, out, mp)
         e = errs.get(oname)
         if e is not None and not (e <= tol):
             l, r = vals[oname]
